@@ -740,5 +740,5 @@ func TestC08(t *testing.T) {
 		"sequences of 1..14 frames over {HEADERS(+/-END_STREAM,+/-END_HEADERS, priority none/other/self, padded), CONTINUATION, DATA(+/-END_STREAM, empty, padded), RST_STREAM, WINDOW_UPDATE(0 / small / up to exactly 2^31-1 / one past), PRIORITY(other/self), PING, SETTINGS, unknown types, handler release}, each with optional undefined flag bits, addressed to stream slots {existing streams by age, next new id, new id skipping one, a lower never-used id, an even id, stream 0}; handlers immediate or gated; lock-step with quiescence (hook counters) after every frame. Oracle = reaction model of RFC 7540 5.1/6 (DESIGN appendix A): the observed reaction (nothing / ACK / RST_STREAM code / GOAWAY code / close) must be in the set the RFC allows for (stream state, frame); legal sequences raise no error; handler invocations equal the requests completed by legal sequences, with the body carried by legal DATA frames; the model follows the observed reaction. Non-trivial = >=3 distinct (frame kind, stream state) pairs including a non-open state; distinct by case hash.",
 		"frame-size malformations are C16/C10 material and not generated here", "MAX_CONCURRENT_STREAMS is never reached (refusal is C09/C13/C18 material)")
 	defer s.finish()
-	runLane(s, Lane[c08Case]{Name: "states", Quick: 40000, Thor: 3000000, Gen: c08Gen, Run: c08Run})
+	runLane(s, Lane[c08Case]{Name: "states", Journal: true, Quick: 40000, Thor: 3000000, Gen: c08Gen, Run: c08Run})
 }
